@@ -51,6 +51,8 @@ static PATHS: [AtomicUsize; 5] = [
     AtomicUsize::new(0),
 ];
 
+static LINK_OPS: [AtomicUsize; 2] = [AtomicUsize::new(0), AtomicUsize::new(0)];
+
 const GROUP_CAP: usize = 16;
 static GROUP_LEN: AtomicUsize = AtomicUsize::new(0);
 #[allow(clippy::declare_interior_mutable_const)]
@@ -166,8 +168,22 @@ pub fn path_counters() -> [usize; 5] {
     ]
 }
 
+/// How often links were compared for equality and hashed: `[eq, hash]`. Every
+/// table lookup, insertion and membership test of the trace and of the
+/// teardown goes through these two operations.
+#[must_use]
+pub fn link_op_counters() -> [usize; 2] {
+    [LINK_OPS[0].load(Relaxed), LINK_OPS[1].load(Relaxed)]
+}
+
+pub(crate) fn count_link_op(which: usize) {
+    LINK_OPS[which].fetch_add(1, Relaxed);
+}
+
 /// Reset all counters and the recorded group.
 pub fn reset_counters() {
+    LINK_OPS[0].store(0, Relaxed);
+    LINK_OPS[1].store(0, Relaxed);
     TRACE_CALLS.store(0, Relaxed);
     TRACE_POPS.store(0, Relaxed);
     TRACE_VISITS.store(0, Relaxed);
